@@ -12,7 +12,7 @@ def run(rep: Report, tier: str, only=None) -> None:
 	jobs: list[Job] = []
 	alphabets = [['a', '1', '+', '*', '(', '='], ['a', '<', ',', '[', ':', '.'], ['a', '-', ' ', '(', '\n', '"'], ['a', ')', ']', '=', ' ', '\n']]
 	if thorough:
-		alphabets += [['a', ':', '\n', ' ', '-', '1'], ['a', '{', '}', '"', ':', ','], ['a', '\\', '!', '>', '=', '%']]
+		alphabets += [['a', ':', '\n', ' ', '-', '1'], ['a', '{', '}', '"', ':', ','], ['a', '/', '!', '>', '=', '%']]  # no backslash class: CrossHair 0.0.110 fails internally (str.find on a symbolic string outside tracing) on it
 	for ai, classes in enumerate(alphabets):
 		for c in class_splits(classes, k, n if (thorough or ai < 2) else n - 1):
 			if not c['prefix'] and c['n'] == 0:
